@@ -22,13 +22,22 @@ def run(ctx):
     # one run exports every behaviour of the small instance (BEH) and the whole codec universe (UNI)
     behs, uni = export(ctx, "Beh_HLV.cfg" if quick else "Beh_HLV_thorough.cfg", None, None, ("BEH", "UNI"))
     sim, = export(ctx, "Sim_HLV.cfg", 60 if quick else 500, 14, ("BEH",))
+    # directed family (merge, edit on, merge again, cross pull between the two merge holders; resolution = Merge, <= 2 versions
+    # generated per replica before it stops editing): the same run decides every invariant on the model (no VIEW: one state per
+    # behaviour) and exports every behaviour that ends in a pull between two merge holders
+    for cfg in (("Dir_HLV.cfg",) if quick else ("Dir_HLV_thorough.cfg", "Dir_HLV_wide.cfg")):
+        d, = export(ctx, cfg, None, None, ("BEH",), count_states=True)
+        ctx.cov["directed_behaviours"] = ctx.cov.get("directed_behaviours", 0) + len(d)
+        behs += d
     cap = 300 if quick else 4000       # -simulate also prints the siblings of every final step: thin them out evenly
     behs += sim[::max(1, len(sim) // cap)][:cap]
     if not uni:
         raise Inconclusive("codec universe not exported")
     replay_and_validate(ctx, behs, uni)
     ctx.cov["rule"] = ("behaviours = every history of 5 edit/pull/resolve events over three replicas (replicas activated in a fixed order, names bound to "
-                       "source ids by a seeded permutation) plus seeded TLC simulations of 12 events; non-trivial = contains a pull the real "
+                       "source ids by a seeded permutation) plus seeded TLC simulations of 12 events plus the directed family (every history of up to 8 - "
+                       "thorough 9 - events with resolution Merge, at most 2 versions per editing replica, one interleaving per commutation class, "
+                       "that ends in a pull between two merge holders); non-trivial = contains a pull the real "
                        "IsInConflict classified as Conflict or accepted into a non-empty vector; universe = all 1323 structurally valid vectors over "
                        "3 sources x 3 values through both codecs; grammar = instances of 11 malformed + 9 open classes")
     ctx.assumptions += ["version values enter the vector operations only through comparisons and hlc.Now's floor+1: per-source rank compression "
@@ -39,14 +48,18 @@ def run(ctx):
                         "named deviation D1 (both sides already hold the other's cv): the 'already known' clause is not evaluated, see NOTES.md"]
 
 
-def export(ctx, cfg, num, depth, tags):
+def export(ctx, cfg, num, depth, tags, count_states=False):
     """like core.behaviours, for several PrintT tags of one TLC run"""
     if num is None:
         r = tlc(ctx, SPEC, "MC_HLV", cfg, timeout=2400, workers=1)
     else:
         r = tlc(ctx, SPEC, "MC_HLV", cfg, mode="simulate", simulate=num, depth=depth, timeout=2400)
     if r.inv_violated:
-        raise Inconclusive("behaviour generation MC_HLV/%s violated %s" % (cfg, r.inv_violated))
+        raise Inconclusive("model counterexample / behaviour generation MC_HLV/%s violated %s (candidate only)\n%s"
+                           % (cfg, r.inv_violated, "\n".join("\n".join(st["_txt"]) for st in r.error_trace[-2:])))
+    if count_states:
+        ctx.cov["states"] += r.distinct
+        ctx.cov["transitions"] += r.generated
     res = []
     for tag in tags:
         seen, lst = set(), []
